@@ -258,7 +258,10 @@ class FileRoundTrip(Relation):
             first = [list(l) if inp['side'] == 1 else list(ident) for _ in range(n)]
             first_t = [list(ties) if inp['side'] == 1 else plain for _ in range(n)]
             second = [list(l) if inp['side'] == 2 else list(ident) for _ in range(n)]
-            second_t = [list(ties) if inp['side'] == 2 else plain for _ in range(n)]
+            # side 2: the tested decisions belong to the LAST second-side agent; the earlier agents have the identical
+            # list with the opposite decisions (a writer that looks lists up by value must not mix them up)
+            second_t = [([not t for t in ties] if x < n - 1 else list(ties)) if inp['side'] == 2 else plain
+                        for x in range(n)]
             if inp['agents'] == 2:
                 text = Generator_ha_sm_hr().create_instance(n, n, first, first_t, second, second_t,
                                                             [0] * n, [1] * n, 'info\n')
@@ -271,10 +274,10 @@ class FileRoundTrip(Relation):
                 m = Solver(['-f', path, '-na', str(inp['agents']), '-twopl']).model
             if inp['side'] == 1:
                 return [[p.projectID, p.rank_student] for p in m.pairs[0]]
-            # second side: lecturer 1's ranks of the students in list order
+            # second side: the last lecturer's / hospital's ranks of the students in list order
             out = []
             for s in l:
-                pr = [p for p in m.pairs[s - 1] if p.lecturerID == 1][0]
+                pr = [p for p in m.pairs[s - 1] if p.lecturerID == n][0]
                 out.append([s, pr.rank_lecturer])
             return out
         return C.observe(f)
